@@ -41,6 +41,48 @@ def heap_walks(repo: Repo) -> Dict[str, Walker]:
     return out
 
 
+def _policy_derived_fields(repo: Repo) -> Dict[str, Dict[Term, Term]]:
+    """Fields the policy setter derives from its argument (`self._min_first = policy == "min"`) and nothing else writes:
+    in a heap of policy P they hold that expression evaluated at P.  {policy: {field term: constant}}"""
+    import ast as _ast
+    from .ir import mk_cmp
+    ci = repo.find_class("Heap")
+    st = ci.setters.get("policy")
+    out: Dict[str, Dict[Term, Term]] = {"min": {}, "max": {}}
+    if st is None or len(st.params) != 2:
+        return out
+    w = Walker(repo, st, self_class="Heap", inline=lambda f: False)
+    arg = ("param", st.params[1])
+    for e in w.events:
+        if e.kind != "store" or e.target[0] != "attr" or e.target[1] != SELF or e.target[2] in ("_policy", "policy") or e.loops:
+            continue
+        fld = e.target[2]
+        # written nowhere else in the class
+        others = 0
+        for fi in list(ci.methods.values()) + list(ci.setters.values()):
+            if fi is st:
+                continue
+            for n in _ast.walk(fi.node):
+                if isinstance(n, _ast.Attribute) and n.attr == fld and isinstance(n.ctx, (_ast.Store, _ast.Del)):
+                    others += 1
+        if others:
+            continue
+        for pol in ("min", "max"):
+            def ev(t):
+                if t == arg:
+                    return ("const", pol)
+                if isinstance(t, tuple) and t and t[0] == "cmp" and t[1] in ("==", "!="):
+                    return mk_cmp(t[1], ev(t[2]), ev(t[3]))
+                if isinstance(t, tuple) and t and t[0] == "not":
+                    v = ev(t[1])
+                    return ("const", not v[1]) if v[0] == "const" and isinstance(v[1], bool) else ("not", v)
+                return t
+            v = ev(e.value)
+            if v[0] == "const":
+                out[pol][("attr", SELF, fld)] = v
+    return out
+
+
 def heap_helper(f) -> bool:
     """Private helpers of the queue, and public methods the documented API does not have (a comparator made public)."""
     from .ir import api_signature
@@ -254,10 +296,11 @@ def check_heap(rep, repo: Repo, pre: str = "") -> None:
     # comparator helper, conditional expression) each walk sees one policy only.
     helper = heap_helper
     SP: Dict[Tuple[str, str], Walker] = {}
+    derived = _policy_derived_fields(repo)
     for name in ("go_up", "go_down"):
         for pol in ("min", "max"):
             SP[(name, pol)] = Walker(repo, repo.need_method("Heap", name), self_class="Heap", inline=helper,
-                                     subst={POLICY: ("const", pol), **nil_subst(repo)})
+                                     subst={POLICY: ("const", pol), **nil_subst(repo), **derived.get(pol, {})})
 
     # the sift rules read comparisons of costs written as comparisons; an element picked by `min(..., key=f)` /
     # `max(..., key=f)` / `sorted(...)` hides them in a key function: outside the analysable fragment
